@@ -198,8 +198,8 @@ def merge(rep, results, mode):
             rep.inconc("shard budget exhausted")
     if genbugs:
         rep.inconc("generator produced %d metamodel-invalid values (oracle/generator bug): %s" % (len(genbugs), genbugs[:3]))
-    if results and not fired:
-        rep.inconc("hook tap observed no hook event")
+    # the tap is auxiliary evidence (the deciding monitor is the round-trip + oracle): a tree that
+    # registers its hooks through another cattrs API is not a reason to withhold the verdict
     if cases == 0:
         rep.inconc("no case executed")
     never = [nm for x, nm in enumerate(names) if x not in fired]
